@@ -36,8 +36,8 @@ PoolFull == <<
     [src |-> "(1+0i)",   val |-> VNum([k |-> "complex", re |-> FOne, im |-> FZ(0)])],
     [src |-> "0.5",      val |-> VNum([k |-> "float", f |-> FHalf])],
     [src |-> "(1/2)",    val |-> VNum([k |-> "rat", n |-> IntOne, d |-> <<2>>])],
-    [src |-> "\"a\"",    val |-> VStr("a")],
     [src |-> "(0.0/0.0)", val |-> VNum([k |-> "float", f |-> FNaN])],
+    [src |-> "\"a\"",    val |-> VStr("a")],
     [src |-> "0.0",      val |-> VNum([k |-> "float", f |-> FZ(0)])],
     [src |-> "(-0.0)",   val |-> VNum([k |-> "float", f |-> FZ(1)])],
     \* the integer 1 held in big representation
